@@ -78,6 +78,10 @@ def _hand(ncomps, channels=True):
     cell = J.Cell(branches, parents=PARENTS)
     cell.branch([1, 3]).add_to_group("A")
     cell.branch(2).add_to_group("B")
+    # a group first registered from a NON-ascending selection (its stored index array is not sorted): branch 3, then branch 1
+    off = np.concatenate([[0], np.cumsum(ncomps)]).astype(int)
+    rows = list(range(off[3], off[4])) + list(range(off[1], off[2]))
+    cell.select(nodes=rows).add_to_group("U")
     return cell
 
 
